@@ -936,13 +936,15 @@ func main() {
 		}()
 	}
 	wg.Wait()
+	// four at a time: each trial keeps a core busy with its broadcast stream, and its 150 ms nap must not overshoot
+	csem := make(chan struct{}, 4)
 	for rep := 0; rep < run.Pick(6, 40); rep++ {
 		rep := rep
 		wg.Add(1)
-		sem <- struct{}{}
+		csem <- struct{}{}
 		go func() {
 			defer wg.Done()
-			defer func() { <-sem }()
+			defer func() { <-csem }()
 			runCleanerRace(run, rep)
 		}()
 	}
